@@ -142,7 +142,7 @@ func c04Case(mn string, mode int, org int64, d int, fill int, labelsAfter bool, 
 			PStmt{K: "data", W: 2, Items: []DItem{{Kind: "label", Label: "after", Text: "after"}}},
 			PStmt{K: "label", Label: "zend"})
 	}
-	if d >= 0 && d < 1000 && !numeric && labelsAfter && (d%7 == 3) {
+	if d >= 0 && d < 120 && !numeric && labelsAfter && (d%7 == 3) { // within rel8 of both references: 16-bit relaxation (F401) is not this variation's subject
 		// a second forward reference to the same (still undefined) target right after the first
 		for i := range p.Stmts {
 			if p.Stmts[i].K == "jmp" {
